@@ -17,6 +17,9 @@ META = {
             "goroutines x mixed api.BuildFile / api.RunCode / api.FormatCode on DIFFERENT programs in a child process, every result compared with "
             "its sequential baseline, panics caught, process death classified; the same workload serialised (control) and with only Compile "
             "serialised (localisation); plus a run under the Go race detector whose reports are attributed to a global by their stack frames. "
+            "Every Config is a Clone of one template (tags added by appends, different TargetOS), the job mix contains calls that panic in the "
+            "backend / fail to type-check / fail to parse, every call runs under a watchdog (a call that never returns is a violation), and a "
+            "deterministic explorer pauses a BuildVFS call inside its loader at every file it opens while another call runs to completion. "
             "The full statement (every interleaving, every mix) is decided by exploration only.",
     "note": "Trusted: Lean kernel; extract/c28_globals.go (syntactic: writes through aliases are invisible, the race detector run complements it); "
             "the audit in extract/c28_globals_expected.json; Go's race detector; schedules are produced by the Go scheduler and are not replayable "
@@ -25,7 +28,8 @@ META = {
                  "+ concurrent differential execution against sequential baselines, race detector",
 }
 REQUIRED = ["isolated_if_serialised", "interference_exists", "interference_not_isolated", "witness_harmless_with_lock",
-            "with_lock_isolated", "safe_iff_locked", "current_source_safe_iff", "globals_accounted_claim"]
+            "with_lock_isolated", "safe_iff_locked", "current_source_safe_iff", "globals_accounted_claim",
+            "leaked_lock_blocks_everyone", "deferred_unlock_never_leaks", "lock_discipline_claim"]
 
 EXPECT = os.path.join(vlib.VERIF, "extract", "c28_globals_expected.json")
 GEN = os.path.join(vlib.LEAN, "WaVerif", "Gen", "C28Facts.lean")
@@ -33,6 +37,10 @@ AUDITS = {"configFlag", "idempotent", "initOnly", "notOnApiPath", "lockGuarded"}
 
 KEY_CUR = "wir.currentModule:compile-not-serialised"
 KEY_UNI = "types.universe-children:unsynchronised-append"
+
+
+def B(x):
+    return "true" if x else "false"
 
 
 def lean_str(s):
@@ -52,7 +60,8 @@ def regenerate(ctx):
         except Exception as e:                                      # noqa
             out += "\n(unparsable: %s)" % e
     rows, claim, locked = [], True, False
-    summary = {"globals": 0, "new_or_changed": [], "gone": [], "compile_locked": None}
+    acquired, deferred = False, True
+    summary = {"globals": 0, "new_or_changed": [], "gone": [], "compile_locked": None, "shared_config_writes": [], "lock_leak_possible": False}
     if facts is None:
         ctx.proof["broken"].append({"theorem": "static facts C28 (extract/c28_globals.go)", "why": "extractor failed: %s" % out[-800:]})
         claim = False
@@ -60,6 +69,25 @@ def regenerate(ctx):
         locked = bool(facts["compile_locked"])
         summary["compile_locked"] = locked
         summary["compile_lock_expr"] = facts.get("compile_lock_expr")
+        acquired, deferred = bool(facts.get("compile_lock_acquired")), bool(facts.get("compile_unlock_deferred"))
+        summary["compile_lock_acquired"], summary["compile_unlock_deferred"] = acquired, deferred
+        if acquired and not deferred:
+            summary["lock_leak_possible"] = True
+            ctx.proof["broken"].append({
+                "theorem": "static facts C28: the compile lock is not released on every path",
+                "why": "(*Compiler).Compile calls Lock() but there is no `defer …Unlock()` (plain Unlock() calls: %s): when the backend panics inside Compile "
+                       "(it does for legal programs, e.g. unsafe.MakeString) and the caller recovers, the lock is leaked and every later call blocks "
+                       "(Lean: leaked_lock_blocks_everyone)" % facts.get("compile_unlock_plain_calls")})
+        for w in facts.get("shared_config_writes") or []:
+            wid = "%s:%s:%s:%s" % (w["pkg"], w["func"], w["field"], w["kind"])
+            if wid not in exp.get("shared_config_writes", {}):
+                summary["shared_config_writes"].append(dict(w, id=wid))
+                ctx.proof["broken"].append({
+                    "theorem": "static facts C28: write into a slice/map shared by shallow Config copies",
+                    "why": "%s line %d: `%s` (%s of %s): config structs are copied shallowly (Config.Clone, the loader's own copy), so this write lands in "
+                           "memory shared with the caller's Config and with every Config cloned from the same template — concurrent calls see each "
+                           "other's values; copy the slice before modifying it, or audit it in extract/c28_globals_expected.json"
+                           % (wid, w["line"], w["code"], w["kind"], w["field"])})
         summary["current_module_readers"] = facts.get("current_module_readers")
         if not facts["compile_found"]:
             ctx.proof["broken"].append({"theorem": "static facts C28", "why": "(*Compiler).Compile not found in internal/backends/compiler_wat"})
@@ -92,24 +120,63 @@ def regenerate(ctx):
     with open(tmp, "w") as f:
         f.write("import WaVerif.Model.C28\n/-! GENERATED by checks/c28.py from extract/c28_globals.go + extract/c28_globals_expected.json on every run — do not edit. -/\n"
                 "namespace WaVerif.C28\n\n/-- does (*Compiler).Compile hold a lock from before wir.SetCurrentModule to its return? -/\n"
-                "def compileLocked : Bool := %s\n\ndef globals : List GlobalVar := [\n%s\n]\n\n"
+                "def compileLocked : Bool := %s\n\n/-- is a lock acquired at all / is it released by `defer` (also when Compile panics)? -/\n"
+                "def compileLockAcquired : Bool := %s\ndef compileUnlockDeferred : Bool := %s\n"
+                "/-- what the generator computed for `lockDiscipline acquired deferred` -/\ndef claimLockDiscipline : Bool := %s\n\n"
+                "def globals : List GlobalVar := [\n%s\n]\n\n"
                 "def claimGlobalsAccounted : Bool := %s\n\nend WaVerif.C28\n"
-                % ("true" if locked else "false", ",\n".join(rows), "true" if claim else "false"))
+                % (B(locked), B(acquired), B(deferred), B((not acquired) or deferred), ",\n".join(rows), B(claim)))
     os.replace(tmp, GEN)
     return facts, summary, locked
 
 
 # ------------------------------------------------------------------------------------------ workload
+# a job is (op, path, target_os): op build|run|fmt on a file, or ("vfs", "-", os) = api.BuildVFS of the harness' in-memory project
+def jl(j):
+    return "%s %s%s" % (j[0], j[1], (" os=" + j[2]) if j[2] else "")
+
+
+def jname(j):
+    return "%s %s%s" % (j[0], os.path.basename(j[1]) if j[1] != "-" else "<in-memory project>", (" os=" + j[2]) if j[2] else "")
+
+
+WATCHDOG_S = {"quick": 150, "thorough": 300}
+
+
+def henv(ctx, extra=None):
+    e = dict(os.environ, C28_WATCHDOG_S=str(WATCHDOG_S.get(ctx.tier, 150)))
+    if extra:
+        e.update(extra)
+    return e
+
+
 def make_jobs(ctx, n, h):
     """n jobs on DIFFERENT programs (different types in play => different per-module tables), ops mixed.
     Candidates are pre-screened sequentially: programs the front end rejects (several matrix programs do not parse in WaGo
     mode) exercise little, so at most two of them are kept (the error path is API behaviour too)."""
     cand = _candidates(ctx, 2 * n + 6)
-    _, out, _ = ctx.run_bin(h, ["0", "0", "0", "once"], "\n".join("%s %s" % j for j in cand) + "\n", timeout=3000)
+    _, out, _ = ctx.run_bin(h, ["0", "0", "0", "once"], "\n".join(jl(j) for j in cand) + "\n", timeout=3000, env=henv(ctx))
     base = parse_run(out)["base"]
     good = [j for i, j in enumerate(cand) if base.get(i, "").startswith("ok")]
     bad = [j for i, j in enumerate(cand) if not base.get(i, "").startswith("ok")]
-    return (good[:max(0, n - 2)] + bad[:2] + good[max(0, n - 2):])[:n]
+    # FAILING calls are part of the workload on purpose: a call that panics inside the backend (recovered, as net/http does per
+    # request), a type error, a syntax error — followed and surrounded by ordinary calls, which must not be affected
+    poison = [("build", p, "") for p in sorted(glob.glob(os.path.join(vlib.VERIF, "corpus", "C28", "*.wa")))
+              if os.path.basename(p).startswith(("panic_", "type_error", "syntax_error"))]
+    poison = [j for j in poison if j not in good[:n]]
+    # BuildVFS calls of one project for different targets (files selected by #wa:build on the target OS / a template tag)
+    vfs = [("vfs", "-", "js"), ("vfs", "-", "unknown")]
+    body = [j for j in good if j not in poison][:max(0, n - len(poison) - len(vfs) - 1)] + [j for j in bad if j not in poison][:1]
+    # interleave: ordinary calls, then a failing one, ordinary ones, ...
+    out_jobs, pi = [], 0
+    step = max(2, len(body) // (len(poison) + len(vfs) + 1))
+    extras = [x for pair in zip(vfs, poison) for x in pair] + poison[len(vfs):] + vfs[len(poison):]
+    for i, j in enumerate(body):
+        out_jobs.append(j)
+        if (i + 1) % step == 0 and pi < len(extras):
+            out_jobs.append(extras[pi]); pi += 1
+    out_jobs += extras[pi:]
+    return out_jobs
 
 
 def _candidates(ctx, n):
@@ -118,9 +185,9 @@ def _candidates(ctx, n):
     os.makedirs(d, exist_ok=True)
     jobs = []
     for p in sorted(glob.glob(os.path.join(vlib.VERIF, "corpus", "C28", "*"))):
-        if p.endswith((".wa", ".wa.go")):
-            jobs.append(("build", p))
-            jobs.append(("run", p))
+        if p.endswith(".wa.go"):
+            jobs.append(("build", p, ""))
+            jobs.append(("run", p, ""))
     mat = [x for x in matrix.all_programs() if x[0][1] not in ("methodval", "methodmix")]   # those do not validate (C16's finding)
     ctx.rng.shuffle(mat)
     seen_t = set()
@@ -136,15 +203,16 @@ def _candidates(ctx, n):
         (t, c), src = pick[i]
         p = os.path.join(d, "m_%s_%s.wa.go" % (t, c))
         open(p, "w").write(src)
-        jobs.append((ops[i % len(ops)], p))
+        op = ops[i % len(ops)]
+        jobs.append((op, p, ctx.rng.choice(["", "", "js", "unknown"]) if op == "build" else ""))
         i += 1
         if i % 6 == 0 and ex:
-            jobs.append((("build", "fmt")[(i // 6) % 2], ex.pop(0)))
+            jobs.append((("build", "fmt")[(i // 6) % 2], ex.pop(0), ""))
     return jobs[:n]
 
 
 def parse_run(out):
-    r = {"base": {}, "wrong": [], "panic": [], "unstable": [], "done": None, "uni": {}}
+    r = {"base": {}, "wrong": [], "panic": [], "unstable": [], "done": None, "uni": {}, "blocked": []}
     for ln in out.splitlines():
         f = ln.split()
         if not f:
@@ -158,6 +226,9 @@ def parse_run(out):
             r["panic"].append({"job": int(f[1]), "goroutine": int(f[2]), "iter": int(f[3]), "msg": bytes.fromhex(f[4]).decode("utf-8", "replace")})
         elif f[0] == "UNSTABLE":
             r["unstable"].append(int(f[1]))
+        elif f[0] == "BLOCKED":
+            r["blocked"].append({"job": int(f[1]), "goroutine": int(f[2]), "iter": int(f[3]), "phase": f[4],
+                                 "after": bytes.fromhex(f[5]).decode("utf-8", "replace") if len(f) > 5 else ""})
         elif f[0].startswith("UNIVERSE-CHILDREN"):
             r["uni"][f[0]] = int(f[1])
         elif f[0] == "DONE":
@@ -245,8 +316,9 @@ def run(ctx):
         jobs = []
         for j in rp["jobs"]:
             p = os.path.join(d, j["file_name"])
-            open(p, "w").write(j["source"])
-            jobs.append((j["op"], p))
+            if j["file_name"] != "-":
+                open(p, "w").write(j["source"])
+            jobs.append((j["op"], p if j.get("file_name") != "-" else "-", j.get("os", "")))
         G, iters, seeds = int(rp["goroutines"]), int(rp["iters"]), [int(rp["seed"]) + k for k in range(K)]
         runs = [("free", G, iters, s, jobs) for s in seeds]
     else:
@@ -259,27 +331,38 @@ def run(ctx):
         runs.append(("lockcompile", G, iters, seeds[0], jobs))
         if not quick:
             runs.append(("lockcompile", G, iters, seeds[1], jobs))
-    jobtext = "\n".join("%s %s" % j for j in jobs) + "\n"
+    jobtext = "\n".join(jl(j) for j in jobs) + "\n"
 
     def one(mode, G, iters, seed, jobs_):
         flags = {"free": "once", "serial": "serial,once", "lockcompile": "lockcompile,once"}[mode]
         try:
-            rc, out, err = ctx.run_bin(h, [str(G), str(iters), str(seed), flags], jobtext, timeout=3000)
+            rc, out, err = ctx.run_bin(h, [str(G), str(iters), str(seed), flags], jobtext, timeout=3000, env=henv(ctx))
         except Exception as e:                                       # timeout
             return mode, seed, -9, "", "TIMEOUT %r" % (e,)
         return mode, seed, rc, out, err
 
     results = []
     race_out = None
-    with cf.ThreadPoolExecutor(4) as ex:
+    gate_out = None
+    with cf.ThreadPoolExecutor(5) as ex:
         futs = [ex.submit(one, *r) for r in runs]
+        # deterministic overlap: a BuildVFS call paused inside its loader at every file it opens, another call run to completion meanwhile
+        gjobs = [j for j in jobs if j[0] in ("build", "vfs") and not os.path.basename(j[1]).startswith(("panic_", "type_error", "syntax_error"))]
+        gjobs = ([j for j in gjobs if j[2] == "unknown"][:1] + [j for j in gjobs if j[2] == "js"][:1] + [j for j in gjobs if j[0] == "vfs"])[:3 if quick else 6]
+        gate_fut = ex.submit(ctx.run_bin, h, ["gate"], "\n".join(jl(j) for j in gjobs) + "\n", 3000, henv(ctx)) if not ctx.replay else None
         if hr and not ctx.replay:
-            rj = jobs[:6] if quick else jobs[:16]
-            rtext = "\n".join("%s %s" % j for j in rj) + "\n"
-            env = dict(os.environ, GORACE="halt_on_error=0 history_size=2")
+            rj = [j for j in jobs if not os.path.basename(j[1]).startswith("panic_")]
+            rj = rj[:6] if quick else rj[:16]
+            rtext = "\n".join(jl(j) for j in rj) + "\n"
+            env = henv(ctx, {"GORACE": "halt_on_error=0 history_size=2", "C28_WATCHDOG_S": "900"})
             race_fut = ex.submit(ctx.run_bin, hr, ["4", "1" if quick else "3", str(seeds[0]), "once"], rtext, 3000, env)
         for fu in futs:
             results.append(fu.result())
+        if gate_fut is not None:
+            try:
+                gate_out = gate_fut.result()
+            except Exception as e:                                    # noqa
+                ctx.notes.append("gate run failed: %r" % (e,))
         if hr and not ctx.replay:
             try:
                 race_out = race_fut.result()
@@ -288,12 +371,14 @@ def run(ctx):
     tm["search_s"] = round(time.time() - t, 1)
 
     def job_replay(extra, seed, G_, iters_):
-        return dict({"jobs": [{"op": op, "file_name": os.path.basename(p), "source": open(p).read()} for op, p in jobs][:40],
+        return dict({"jobs": [{"op": op, "os": tos, "file_name": os.path.basename(p) if p != "-" else "-", "source": open(p).read() if p != "-" else ""}
+                              for op, p, tos in jobs][:40],
                      "goroutines": G_, "iters": iters_, "seed": seed, "rerun_up_to": K}, **extra)
 
     dist = {"runs": {}, "calls": 0, "wrong": 0, "panics": 0, "fatal": 0, "jobs": len(jobs), "ops": {}}
-    for op, _ in jobs:
+    for op, _, _ in jobs:
         dist["ops"][op] = dist["ops"].get(op, 0) + 1
+    dist["blocked"] = 0
     samples = []
     free_bad = lock_bad = serial_bad = 0
     uni_growth = None
@@ -311,15 +396,26 @@ def run(ctx):
         if "UNIVERSE-CHILDREN-AT-END" in r["uni"] and mode == "free":
             uni_growth = (r["uni"].get("UNIVERSE-CHILDREN-AFTER-BASELINE"), r["uni"]["UNIVERSE-CHILDREN-AT-END"])
         for u in r["unstable"]:
-            ctx.notes.append("job %s %s is not stable sequentially (excluded; C27's concern)" % jobs[u])
+            ctx.notes.append("job %s is not stable sequentially (excluded; C27's concern)" % jname(jobs[u]))
+        if r["blocked"]:
+            b = r["blocked"][0]
+            dist["blocked"] += 1
+            leak = fsum.get("lock_leak_possible")
+            ctx.violation("blocked-after-failed-call:" + ("compile-lock-not-released-on-panic" if leak else "unattributed"),
+                          "a call never returned (watchdog %ds, run mode %s, %s phase): job %d (%s) on goroutine %d; the most recent FAILED call before it: %s. "
+                          "A call that panics or fails must not affect later calls%s"
+                          % (WATCHDOG_S.get(ctx.tier, 150), mode, b["phase"], b["job"], jname(jobs[b["job"]]), b["goroutine"], b["after"][:300],
+                             "; static fact: Compile acquires its lock but does not release it by defer, so the recovered panic leaked it "
+                             "(Lean: leaked_lock_blocks_everyone)" if leak else ""),
+                          job_replay({"mode": mode, "blocked": b}, seed, G, iters))
         first = None
         if r["wrong"]:
             w = r["wrong"][0]
-            first = ("wrong-output", "job %d (%s %s) on goroutine %d: alone -> %s ; concurrently -> %s"
-                     % (w["job"], jobs[w["job"]][0], os.path.basename(jobs[w["job"]][1]), w["goroutine"], w["baseline"][:120], w["got"][:160]))
+            first = ("wrong-output", "job %d (%s) on goroutine %d: alone -> %s ; concurrently -> %s"
+                     % (w["job"], jname(jobs[w["job"]]), w["goroutine"], w["baseline"][:120], w["got"][:160]))
         elif r["panic"]:
             w = r["panic"][0]
-            first = ("panic", "job %d (%s %s): %s" % (w["job"], jobs[w["job"]][0], os.path.basename(jobs[w["job"]][1]), w["msg"][:300]))
+            first = ("panic", "job %d (%s): %s" % (w["job"], jname(jobs[w["job"]]), w["msg"][:300]))
         elif fk:
             first = ("fatal", "%s; stderr tail: %s" % (fk, err.strip()[-300:].replace("\n", " | ")))
         if mode == "free":
@@ -342,7 +438,14 @@ def run(ctx):
                             "first": first[1][:300] if first else None})
 
     # attribute the failures of the free runs
+    shared = fsum.get("shared_config_writes") or []
     for seed, first, nbad in pending_free:
+        if shared and serial_bad == 0:
+            key = "config-shared-write:%s:%s" % (shared[0]["field"], first[0])
+            what = ("concurrent calls with Configs cloned from one template misbehave: %s. Static fact: %s writes into %s, which every shallow copy of "
+                    "the Config shares (%s)" % (first[1], shared[0]["id"], shared[0]["field"], shared[0]["code"]))
+            ctx.violation(key, what, job_replay({"mode": "free", "first": first[1]}, seed, G, iters))
+            continue
         if not locked and lock_bad == 0 and serial_bad == 0:
             key = KEY_CUR + ":" + first[0]
             what = ("%d goroutines calling api.BuildFile/RunCode/FormatCode on different programs: %d results differ from the sequential baseline / panic / kill "
@@ -356,6 +459,36 @@ def run(ctx):
             key = "unattributed:" + first[0]
             what = "concurrent calls misbehave and the failure does not localise to Compile: " + first[1]
         ctx.violation(key, what, job_replay({"mode": "free", "first": first[1]}, seed, G, iters))
+
+    # ---- the gated (deterministic) overlaps
+    gate = {"overlaps": 0, "wrong": 0, "verdicts": {}}
+    if gate_out is not None:
+        _, gout, gerr = gate_out
+        gbase = {}
+        for ln in gout.splitlines():
+            f = ln.split()
+            if not f:
+                continue
+            if f[0] == "GATEBASE":
+                gbase[f[1]] = " ".join(f[2:])[:200]
+            elif f[0] == "GATE":
+                gate["overlaps"] += 1
+                gate["verdicts"][f[4]] = gate["verdicts"].get(f[4], 0) + 1
+                if f[4].startswith(("WRONG", "BLOCKED")):
+                    gate["wrong"] += 1
+                    det = bytes.fromhex(f[5]).decode("utf-8", "replace") if len(f) > 5 and f[5] != "-" else f[4]
+                    pausefile = bytes.fromhex(f[2]).decode()
+                    if shared:
+                        key = "config-shared-write:%s:%s" % (shared[0]["field"], "wrong-output" if f[4].startswith("WRONG") else "blocked")
+                        det += "; static fact: %s (`%s`) writes into memory shared by shallow Config copies" % (shared[0]["id"], shared[0]["code"])
+                    else:
+                        key = "gated-overlap:%s" % f[4].lower()
+                    ctx.violation(key, "deterministic overlap of two API calls whose Configs are clones of one template: " + det,
+                                  {"mode": "gate", "A": f[1], "paused_at_open_of": pausefile, "B": f[3], "B_jobs": [jname(j) for j in gjobs],
+                                   "baselines": gbase, "verdict": f[4]})
+        if "GATEDONE" not in gout:
+            ctx.notes.append("gate run did not finish: %s" % (gerr or "")[-300:])
+    dist["gate"] = gate
 
     if uni_growth and uni_growth[0] is not None and uni_growth[1] > uni_growth[0]:
         ctx.violation(KEY_UNI, "every compilation appends its package scopes to the children of the process-global Universe scope (types.NewScope: the guard "
@@ -381,13 +514,13 @@ def run(ctx):
             else:
                 key = "data-race:" + re.sub(r"\s*\(.*?\)", "", lst[0]["tops"][0] if lst[0]["tops"] else "unknown")[:80]
             ctx.violation(key, "race detector: %d reports attributed to %s, e.g. %s" % (len(lst), owner, ex1),
-                          {"race_example": lst[0], "count": len(lst), "jobs": [(op, os.path.basename(p)) for op, p in jobs[:6]]})
+                          {"race_example": lst[0], "count": len(lst), "jobs": [jname(j) for j in jobs[:6]]})
         r = parse_run(out)
         if not r["done"] and not races:
             ctx.notes.append("race run died without a report: %s" % err[-300:])
 
     cov = {
-        "evaluations": dist["calls"] + len(scheds),
+        "evaluations": dist["calls"] + len(scheds) + gate["overlaps"],
         "distinct_nontrivial": len(stable_jobs) + interfering,
         "rule": "one evaluation = one API call executed concurrently with %d-1 others and compared with its sequential baseline (runs: free / all-serialised / "
                 "only-Compile-serialised), or one random schedule replayed on the real wir package and on the Lean model; distinct_nontrivial = (run x job) "
